@@ -17,198 +17,33 @@
 #include <sys/wait.h>
 #include <unistd.h>
 
+#include <cxxabi.h>
+#include <typeinfo>
+
 #include "prop.h"
-
-namespace vp {
-
-std::string jsonEscape(const std::string &s)
-{
-    std::string o;
-    for (unsigned char c : s) {
-        switch (c) {
-        case '"': o += "\\\""; break;
-        case '\\': o += "\\\\"; break;
-        case '\n': o += "\\n"; break;
-        case '\r': o += "\\r"; break;
-        case '\t': o += "\\t"; break;
-        default:
-            if (c < 0x20) {
-                char b[8];
-                snprintf(b, sizeof b, "\\u%04x", c);
-                o += b;
-            } else {
-                o += static_cast<char>(c);
-            }
-        }
-    }
-    // Make sure the result is valid UTF-8 for JSON consumers: replace invalid sequences by '?'.
-    std::string v;
-    size_t i = 0;
-    while (i < o.size()) {
-        unsigned char c = static_cast<unsigned char>(o[i]);
-        size_t n = c < 0x80 ? 1 : (c >> 5) == 6 ? 2 : (c >> 4) == 14 ? 3 : (c >> 3) == 30 ? 4 : 0;
-        bool good = n > 0 && i + n <= o.size();
-        for (size_t k = 1; good && k < n; ++k) {
-            good = (static_cast<unsigned char>(o[i + k]) >> 6) == 2;
-        }
-        if (good) {
-            v.append(o, i, n);
-            i += n;
-        } else {
-            v += '?';
-            ++i;
-        }
-    }
-    return v;
-}
-
-bool globMatch(const std::string &p, const std::string &t)
-{
-    // '*' matches any run of characters; everything else is literal.
-    size_t pi = 0, ti = 0, star = std::string::npos, mark = 0;
-    while (ti < t.size()) {
-        if (pi < p.size() && p[pi] == '*') {
-            star = pi++;
-            mark = ti;
-        } else if (pi < p.size() && p[pi] == t[ti]) {
-            ++pi;
-            ++ti;
-        } else if (star != std::string::npos) {
-            pi = star + 1;
-            ti = ++mark;
-        } else {
-            return false;
-        }
-    }
-    while (pi < p.size() && p[pi] == '*') {
-        ++pi;
-    }
-    return pi == p.size();
-}
-
-struct Known
-{
-    std::string property, sig, what;
-};
-static std::vector<Known> gKnown;
-
-static void loadKnown()
-{
-    const char *p = getenv("VERIF_KNOWN");
-    if (p == nullptr) {
-        return;
-    }
-    std::ifstream in(p);
-    std::string line;
-    while (std::getline(in, line)) {
-        size_t a = line.find('\t');
-        size_t b = a == std::string::npos ? a : line.find('\t', a + 1);
-        if (b == std::string::npos) {
-            continue;
-        }
-        gKnown.push_back({line.substr(0, a), line.substr(a + 1, b - a - 1), line.substr(b + 1)});
-    }
-}
-
-int knownFindingIndex(const std::string &propertyId, const std::string &sig)
-{
-    for (size_t i = 0; i < gKnown.size(); ++i) {
-        if (gKnown[i].property == propertyId && globMatch(gKnown[i].sig, sig)) {
-            return static_cast<int>(i);
-        }
-    }
-    return -1;
-}
-
-std::string knownFindingWhat(int idx)
-{
-    return gKnown[static_cast<size_t>(idx)].what;
-}
-
-int runIsolated(void (*fn)(void *), void *arg, int timeoutS, std::string *diag)
-{
-    int pfd[2];
-    if (pipe(pfd) != 0) {
-        return -1;
-    }
-    fflush(nullptr);
-    pid_t pid = fork();
-    if (pid == 0) {
-        close(pfd[0]);
-        dup2(pfd[1], 2);
-        close(pfd[1]);
-        if (timeoutS > 0) {
-            signal(SIGALRM, SIG_DFL);
-            alarm(static_cast<unsigned>(timeoutS));
-        }
-        fn(arg);
-        fflush(nullptr);
-        _exit(0);
-    }
-    close(pfd[1]);
-    std::string err;
-    char buf[4096];
-    ssize_t n;
-    while ((n = read(pfd[0], buf, sizeof buf)) > 0) {
-        if (err.size() < (1u << 20)) {
-            err.append(buf, static_cast<size_t>(n));
-        }
-    }
-    close(pfd[0]);
-    int st = 0;
-    waitpid(pid, &st, 0);
-    if (diag != nullptr) {
-        *diag = err;
-    }
-    if (WIFEXITED(st)) {
-        return WEXITSTATUS(st);
-    }
-    if (WIFSIGNALED(st)) {
-        return 1000 + WTERMSIG(st);
-    }
-    return -1;
-}
-
-} // namespace vp
 
 using namespace vp;
 
 namespace {
 
-struct Stats
+std::string demangle(const char *n)
 {
-    long evaluations = 0;
-    long nontrivial = 0;
-    std::set<uint64_t> distinctNontrivial;
-    std::map<std::string, long> classes;
-    std::map<std::string, long> counters;
-    std::map<int, long> knownHits;
-    std::map<int, std::string> knownExample;
-    std::vector<std::string> samples; // first non-trivial ones
-    std::string largest;
-    size_t largestWeight = 0;
-    std::vector<std::string> picked;
-    long violations = 0;
-    std::string violationSig, violationMsg, violationText, violationReplay;
-};
+    int st = 0;
+    char *d = abi::__cxa_demangle(n, nullptr, nullptr, &st);
+    std::string r = (st == 0 && d != nullptr) ? d : n;
+    free(d);
+    return r;
+}
 
-Stats gStats;
-std::string gPart, gReplayDir, gMode = "rc", gName;
-long gSeed = 1, gCases = 1000, gSize = 200, gBound = 3, gCaseTimeout = 120;
+#include "stats.inc"
+
+std::string gReplayDir, gName;
+long gCases = 1000, gSize = 200, gBound = 3, gCaseTimeout = 120;
 int gCurFd = -1;
 std::vector<uint32_t> gLastFailTape;
 Case gLastFailCase;
 bool gShrinking = false;
 long gShrinkRuns = 0, gShrinkBudget = 300;
-std::chrono::steady_clock::time_point gStart;
-
-std::string clip(const std::string &s, size_t n = 6000)
-{
-    if (s.size() <= n) {
-        return s;
-    }
-    return s.substr(0, n) + "\n...[clipped " + std::to_string(s.size() - n) + " bytes]";
-}
 
 void writeCur(const std::vector<uint32_t> &tape)
 {
@@ -240,37 +75,20 @@ bool runCase(const std::vector<uint32_t> &tape, Case &c)
     if (gCaseTimeout > 0) {
         alarm(static_cast<unsigned>(gCaseTimeout));
     }
-    property.run(src, c);
+    auto t0 = std::chrono::steady_clock::now();
+    try {
+        property.run(src, c);
+    } catch (const std::exception &e) {
+        c.fail(std::string("uncaught:") + demangle(typeid(e).name()) + "|" + e.what(), std::string("exception escaped to the caller: ") + e.what());
+    }
     alarm(0);
+    long us = static_cast<long>(std::chrono::duration_cast<std::chrono::microseconds>(std::chrono::steady_clock::now() - t0).count());
+    if (us > gStats.maxUs) {
+        gStats.maxUs = us;
+        gStats.slowest = clip(c.text, 3000);
+    }
     c.count("tape_reads", static_cast<long>(src.reads));
     return c.ok;
-}
-
-void account(const Case &c)
-{
-    Stats &s = gStats;
-    ++s.evaluations;
-    for (const auto &k : c.classes) {
-        ++s.classes[k];
-    }
-    for (const auto &k : c.counters) {
-        s.counters[k.first] += k.second;
-    }
-    if (c.nontrivial) {
-        ++s.nontrivial;
-        bool isNew = s.distinctNontrivial.insert(c.hash).second;
-        if (isNew && !c.text.empty()) {
-            if (s.samples.size() < 2) {
-                s.samples.push_back(clip(c.text));
-            } else if ((c.hash % 997) < 5 && s.picked.size() < 3) {
-                s.picked.push_back(clip(c.text));
-            }
-            if (c.weight > s.largestWeight) {
-                s.largestWeight = c.weight;
-                s.largest = clip(c.text, 12000);
-            }
-        }
-    }
 }
 
 std::string tapeToString(const std::vector<uint32_t> &t)
@@ -325,71 +143,6 @@ bool readReplay(const std::string &path, std::vector<uint32_t> &tape)
     tape.resize(all.size() / 4);
     memcpy(tape.data(), all.data(), tape.size() * 4);
     return true;
-}
-
-void writePart()
-{
-    if (gPart.empty()) {
-        return;
-    }
-    Stats &s = gStats;
-    std::ofstream o(gPart + ".tmp");
-    double wall = std::chrono::duration<double>(std::chrono::steady_clock::now() - gStart).count();
-    o << "{\"property_id\":\"" << property.id << "\",\"mode\":\"" << gMode << "\",\"seed\":" << gSeed << ",\"level\":\"" << property.level
-      << "\",\"evaluations\":" << s.evaluations << ",\"nontrivial\":" << s.nontrivial << ",\"wall_s\":" << wall << ",\"rule\":\"" << jsonEscape(property.rule) << "\"";
-    o << ",\"hashes\":[";
-    bool first = true;
-    for (uint64_t h : s.distinctNontrivial) {
-        o << (first ? "" : ",") << "\"" << std::hex << h << std::dec << "\"";
-        first = false;
-    }
-    o << "],\"classes\":{";
-    first = true;
-    for (const auto &k : s.classes) {
-        o << (first ? "" : ",") << "\"" << jsonEscape(k.first) << "\":" << k.second;
-        first = false;
-    }
-    o << "},\"counters\":{";
-    first = true;
-    for (const auto &k : s.counters) {
-        o << (first ? "" : ",") << "\"" << jsonEscape(k.first) << "\":" << k.second;
-        first = false;
-    }
-    o << "},\"known_hits\":[";
-    first = true;
-    for (const auto &k : s.knownHits) {
-        o << (first ? "" : ",") << "{\"sig\":\"" << jsonEscape(gKnown[static_cast<size_t>(k.first)].sig) << "\",\"what\":\"" << jsonEscape(gKnown[static_cast<size_t>(k.first)].what)
-          << "\",\"count\":" << k.second << ",\"example\":\"" << jsonEscape(clip(s.knownExample[k.first], 1500)) << "\"}";
-        first = false;
-    }
-    o << "],\"samples\":[";
-    first = true;
-    std::vector<std::string> all = s.samples;
-    all.insert(all.end(), s.picked.begin(), s.picked.end());
-    if (!s.largest.empty()) {
-        all.push_back(s.largest);
-    }
-    for (const auto &x : all) {
-        o << (first ? "" : ",") << "\"" << jsonEscape(x) << "\"";
-        first = false;
-    }
-    o << "],\"assumptions\":[";
-    first = true;
-    for (const auto &x : property.assumptions) {
-        o << (first ? "" : ",") << "\"" << jsonEscape(x) << "\"";
-        first = false;
-    }
-    o << "],\"violations\":" << s.violations;
-    if (s.violations > 0) {
-        o << ",\"violation\":{\"sig\":\"" << jsonEscape(s.violationSig) << "\",\"msg\":\"" << jsonEscape(clip(s.violationMsg, 3000)) << "\",\"replay\":\"" << jsonEscape(s.violationReplay)
-          << "\",\"text\":\"" << jsonEscape(clip(s.violationText, 4000)) << "\"}";
-    }
-    if (property.extraEvidence != nullptr) {
-        property.extraEvidence(o);
-    }
-    o << "}\n";
-    o.close();
-    rename((gPart + ".tmp").c_str(), gPart.c_str());
 }
 
 // Handles one finished case: accounting, known findings. Returns true when the driver should treat it as a pass.
@@ -523,7 +276,11 @@ int main(int argc, char **argv)
                 }
                 writeCur(pre);
             }
-            property.run(src, c);
+            try {
+                property.run(src, c);
+            } catch (const std::exception &e) {
+                c.fail(std::string("uncaught:") + demangle(typeid(e).name()) + "|" + e.what(), std::string("exception escaped to the caller: ") + e.what());
+            }
             alarm(0);
             if (!judge(src.asTape(), c)) {
                 recordViolation("exhaustive");
